@@ -161,8 +161,26 @@ def same(a, b):
     return a == b
 
 
+def term_width(t):
+    """bit width of an integer term when it is known: a generated leaf (`u16_7`), or a cast `as_uN(..)`"""
+    if isinstance(t, Term) and not t.args:
+        m = re.match(r"^(u8|u16|u32|u64|usize)_", t.op)
+        if m:
+            return {"u8": 8, "u16": 16, "u32": 32, "u64": 64, "usize": 64}[m.group(1)]
+    if isinstance(t, Term) and len(t.args) == 1:
+        m = re.match(r"^as_(u8|u16|u32|u64|usize)$", t.op)
+        if m:
+            return {"u8": 8, "u16": 16, "u32": 32, "u64": 64, "usize": 64}[m.group(1)]
+    return None
+
+
 def strip_casts(t):
+    """remove value-preserving integer casts: `as_uN(x)` is x when x is known to fit in N bits; a narrowing cast (the writer
+    emitting a u32 field as u16) is kept, so the rebuilt value differs from the original"""
     while isinstance(t, Term) and t.op.startswith("as_") and len(t.args) == 1:
+        outer, inner = term_width(t), term_width(t.args[0])
+        if outer is not None and inner is not None and inner > outer:
+            break
         t = t.args[0]
     return t
 
